@@ -169,6 +169,11 @@ class Statement(object):
         """
         if not self.code_pkg.address.is_none():
             return self.code_pkg.address.int
+        if address + self.code_pkg.size > 0x10000 or (address > 0xFFFF and self.label):
+            raise TranslationError("address exceeds $FFFF", self)
+        if address > 0xFFFF:
+            # A directive that follows the last byte of memory places nothing
+            return address
         self.code_pkg.address = NumericValue(address)
         return self.code_pkg.address.int
 
